@@ -144,8 +144,6 @@ class Canon:
             # _mm256_xor_pd(x, -0.0): sign flip of a double
             x = e[2] if is_int(e[3]) else e[3]
             r = {m: -c for m, c in self.real(x).items()}
-        elif op == 'sitofp' and is_int(e[1]):
-            r = {(): Fraction(e[1])}
         else:
             r = {(self.atom_id(self.struct(v)),): Fraction(1)}
         self.memo[k] = r
@@ -202,7 +200,7 @@ class Canon:
         elif op in ('fadd', 'fsub', 'fmul', 'fneg', 'fma', 'fdiv'):
             p = self.real(v)
             r = ('Rpoly', frozenset(p.items()))
-        elif op in ('add', 'sub', 'mul', 'shl') and is_int(e[1]):
+        elif (op in ('add', 'sub', 'mul') or (op == 'shl' and is_int(e[3]) and e[3] < e[1])) and is_int(e[1]):
             p = self.ring(v, e[1])
             if len(p) == 1 and list(p.values())[0] == 1 and len(list(p.keys())[0]) == 1 and op == 'shl':
                 r = (op, e[1]) + tuple(self.struct(x) for x in e[2:])
